@@ -19,6 +19,7 @@ partial def loop (hin : IO.FS.Stream) (hout : IO.FS.Stream) : IO Unit := do
   let line ← hin.getLine
   if line.isEmpty then return ()
   hout.putStrLn (handle line)
+  hout.flush
   loop hin hout
 
 end Driver
